@@ -333,6 +333,108 @@ func execLock(f []string) string {
 		len(origSecrets), clear, leak, w.IsEncrypted(), same, wErr(werr), wErr(eerr), wErr(again), reload, purity)
 }
 
+type lastActive struct{ keep []int; call *int }
+
+func (f lastActive) AddressesActivity(addrs []cipher.Addresser) ([]bool, error) {
+	k := 0
+	if *f.call < len(f.keep) {
+		k = f.keep[*f.call]
+	}
+	*f.call++
+	out := make([]bool, len(addrs))
+	for i := range out {
+		out[i] = i == k-1
+	}
+	return out, nil
+}
+
+// execLockExt: a wallet that is EXTENDED WHILE LOCKED (bip44: external chain, change chain and a scan
+// with activity on both chains, directly on the locked wallet; the others through wallet.GuardUpdate)
+// and then unlocked must be, entry by entry and secret by secret, the wallet a never-locked twin of
+// the same seed is after the same extension; every entry must verify (address of pubkey, pubkey of
+// secret key); and that must survive Serialize/Load of the locked wallet and a second lock/unlock.
+//
+//	lockext <type> <crypto> <seedhex> <n> <pwhex> <ext> <chg> <scan> <keepExt> <keepChg>
+func execLockExt(f []string) string {
+	typ, ct := f[1], crypto.CryptoType(f[2])
+	seed, n, pw := PHex(f[3]), int(PU64(f[4])), PHex(f[5])
+	ext, chg, scanN := PU64(f[6]), PU64(f[7]), PU64(f[8])
+	keep := []int{int(PU64(f[9])), int(PU64(f[10]))}
+	w := mkWallet(typ, ct, seed, n)
+	twin := mkWallet(typ, ct, seed, n)
+	twin.SetTimestamp(w.Timestamp())
+	extend := func(x wallet.Wallet) error {
+		if typ == "collection" {
+			return nil
+		}
+		if _, err := x.GenerateAddresses(wallet.OptionGenerateN(ext)); err != nil {
+			return err
+		}
+		if typ == "bip44" {
+			if _, err := x.GenerateAddresses(wallet.OptionGenerateN(chg), wallet.OptionChange()); err != nil {
+				return err
+			}
+		}
+		call := 0
+		_, err := x.ScanAddresses(scanN, lastActive{keep, &call})
+		return err
+	}
+	must(extend(twin))
+	must(w.Lock(pw))
+	var err error
+	if typ == "bip44" {
+		err = extend(w) // bip44 wallets derive addresses without being unlocked
+	} else {
+		err = wallet.GuardUpdate(w, pw, extend)
+	}
+	if err != nil {
+		return "err extend"
+	}
+	// through the serialised form
+	locked, err := w.Serialize()
+	must(err)
+	var l wallet.Loader
+	switch typ {
+	case "deterministic":
+		l = &deterministic.Loader{}
+	case "bip44":
+		l = &bip44wallet.Loader{}
+	case "collection":
+		l = &collection.Loader{}
+	}
+	w2, err := l.Load(locked)
+	if err != nil {
+		return "err load"
+	}
+	w2.SetFilename(w.Filename())
+	want, err := twin.Serialize()
+	must(err)
+	cmp := func(x wallet.Wallet) string {
+		u, err := x.Unlock(pw)
+		if err != nil {
+			return "err:" + wErr(err)
+		}
+		es, err := u.GetEntries()
+		must(err)
+		for i, e := range es {
+			if err := e.Verify(); err != nil {
+				return fmt.Sprintf("bad-entry-%d", i)
+			}
+		}
+		ub, err := u.Serialize()
+		must(err)
+		if !bytes.Equal(ub, want) {
+			return "different"
+		}
+		return "same"
+	}
+	a := cmp(w)
+	b := cmp(w2)
+	// once more: what Unlock wrote back into the locked wallet must decrypt to the same
+	c := cmp(w)
+	return fmt.Sprintf("ok unlock=%s reloaded=%s again=%s", a, b, c)
+}
+
 // execAlias: a wallet and its Clone share nothing — for all four wallet types, locking, erasing,
 // relabelling or extending the clone leaves the original's serialisation unchanged, and vice versa.
 func execAlias(f []string) string {
@@ -412,6 +514,8 @@ func c18Exec(op string) string {
 		return execLock(f)
 	case "alias":
 		return execAlias(f)
+	case "lockext":
+		return execLockExt(f)
 	}
 	panic("harness: unknown op " + f[0])
 }
@@ -755,6 +859,17 @@ func c18Gen(r *Rng, tier string, emit func(string)) {
 		}
 	}
 	emit(fmt.Sprintf("lock deterministic %s %s 2 - %s", cts[0], Hex(r.Bytes(16)), Hex([]byte("x"))))
+	for i := 0; i < 6*scale; i++ {
+		for _, typ := range []string{"bip44", "bip44", "deterministic", "collection"} {
+			scanN := r.Intn(5)
+			k1, k2 := 0, 0
+			if scanN > 0 {
+				k1, k2 = r.Intn(scanN+1), r.Intn(scanN+1)
+			}
+			emit(fmt.Sprintf("lockext %s %s %s %d %s %d %d %d %d %d", typ, cts[0], Hex(r.Bytes(16)), 1+r.Intn(3), Hex(pwOf()),
+				r.Intn(4), r.Intn(4), scanN, k1, k2))
+		}
+	}
 	for i := 0; i < 3*scale; i++ {
 		for _, typ := range []string{"deterministic", "bip44", "collection", "xpub"} {
 			emit(fmt.Sprintf("alias %s %s %d", typ, Hex(r.Bytes(16)), 1+r.Intn(4)))
